@@ -1,6 +1,7 @@
 import PrysmVerif.Generated.C20
 import PrysmVerif.Lemmas.C20Jones
 import PrysmVerif.Lemmas.C20Mueller
+import PrysmVerif.Lemmas.C20Cone
 import Mathlib.Analysis.SpecialFunctions.Trigonometric.Basic
 import Mathlib.Analysis.SpecialFunctions.Exp
 /-!
@@ -494,20 +495,41 @@ theorem stokes_pure (E : Matrix (Fin 2) (Fin 1) ℂ) :
 
 /-- depolarisation-free Mueller matrices map the boundary of the Stokes cone into itself: for every complex Jones matrix `J` and
 every fully polarised input `E`, the output Stokes vector `M(J) S(E)` has `s₀ = |(J E)_x|² + |(J E)_y|² ≥ 0` and
-`s₀² = s₁² + s₂² + s₃²`.  PARTIAL with respect to `stokes_cone_full` (the interior of the cone, i.e. partially polarised inputs, follows
-by writing them as non-negative combinations of pure states; that convexity argument is not formalised here). -/
+`s₀² = s₁² + s₂² + s₃²`.  (The interior of the cone — partially polarised inputs — is `stokes_cone_preserved` below.) -/
 theorem mueller_preserves_pure_cone (J : Matrix (Fin 2) (Fin 2) ℂ) (E : Matrix (Fin 2) (Fin 1) ℂ) :
     (muellerC J * stokesC E) 0 (0, 0) = ((normSq ((J * E) 0 0) + normSq ((J * E) 1 0) : ℝ) : ℂ) ∧
     (muellerC J * stokesC E) 0 (0, 0) ^ 2 = (muellerC J * stokesC E) 1 (0, 0) ^ 2 + (muellerC J * stokesC E) 2 (0, 0) ^ 2 +
       (muellerC J * stokesC E) 3 (0, 0) ^ 2 := by
   rw [mueller_stokes]; exact stokes_pure (J * E)
 
-/-- the full clause (NOT proved; kept as a statement): every real Stokes vector in the closed cone `s₀ ≥ √(s₁² + s₂² + s₃²)` is mapped
+/-- the full clause: every real Stokes vector in the closed cone `s₀ ≥ √(s₁² + s₂² + s₃²)` (fully or partially polarised light) is mapped
 into the cone by the Mueller matrix of every Jones matrix -/
 def stokes_cone_full : Prop :=
   ∀ (J : Matrix (Fin 2) (Fin 2) ℂ) (S : Fin 4 → ℝ), 0 ≤ S 0 → S 1 ^ 2 + S 2 ^ 2 + S 3 ^ 2 ≤ S 0 ^ 2 →
     let S' := (mueller J).mulVec S
     0 ≤ S' 0 ∧ S' 1 ^ 2 + S' 2 ^ 2 + S' 3 ^ 2 ≤ S' 0 ^ 2
+
+/-- `stokes_cone_full` holds (third pass; via the coherency matrix: `S₀² - |S⃗|² = 4 det C`, `C ↦ J̄ C Jᵀ`, `S₀ = tr C` a sum of two positive
+semidefinite forms) -/
+theorem stokes_cone_full_proved : stokes_cone_full := by
+  intro J S h0 hc
+  exact ⟨(C20Cone.stokes_cone J S h0 hc).1, (C20Cone.stokes_cone J S h0 hc).2.1⟩
+
+/-- depolarisation-free Mueller matrices preserve the Stokes cone, over the GENERATED `U` table: for every complex Jones matrix `J` and every
+Stokes vector with `S₀ ≥ 0`, `S₁² + S₂² + S₃² ≤ S₀²`, the image `S' = M(J) S` has `S'₀ ≥ 0`, `|S⃗'|² ≤ S'₀²`, and
+`S'₀² - |S⃗'|² = |det J|² (S₀² - |S⃗|²)` (Lorentz property: the degree of polarisation cannot be pushed above one) -/
+theorem stokes_cone_preserved (J : M22 ℂ) (S : Fin 4 → ℝ) (h0 : 0 ≤ S 0) (hc : S 1 ^ 2 + S 2 ^ 2 + S 3 ^ 2 ≤ S 0 ^ 2) :
+    let S' := (muellerOf J).mulVec S
+    0 ≤ S' 0 ∧ S' 1 ^ 2 + S' 2 ^ 2 + S' 3 ^ 2 ≤ S' 0 ^ 2 ∧
+    S' 0 ^ 2 - (S' 1 ^ 2 + S' 2 ^ 2 + S' 3 ^ 2) = normSq (J.a * J.d - J.b * J.c) * (S 0 ^ 2 - (S 1 ^ 2 + S 2 ^ 2 + S 3 ^ 2)) := by
+  have h := C20Cone.stokes_cone (toMat J) S h0 hc
+  have hd : (toMat J).det = J.a * J.d - J.b * J.c := by simp [toMat, Matrix.det_fin_two]
+  rw [hd] at h
+  simpa only [muellerOf_eq] using h
+
+/-- non-vacuity: unpolarised light `(1, 0, 0, 0)` and fully polarised `(1, 1, 0, 0)` satisfy the cone hypotheses -/
+example : (0 : ℝ) ≤ ![1, 0, 0, 0] 0 ∧ (![1, 1, 0, 0] 1 : ℝ) ^ 2 + ![1, 1, 0, 0] 2 ^ 2 + ![1, 1, 0, 0] 3 ^ 2 ≤ ![1, 1, 0, 0] 0 ^ 2 := by
+  constructor <;> simp
 
 /-- non-vacuity: a homogeneous propagator (multiplication by a transfer value) satisfies the hypothesis of `adapter_uniform_optic` -/
 example (H : ℂ) : ∀ k x : ℂ, (fun y => H * y) (k * x) = k * (fun y => H * y) x := by intro k x; ring
